@@ -76,7 +76,18 @@ class Printer:
             else:
                 pad = " " * self.rng.randint(0, 8) if lay.get("padvalues") else ""
                 trail = "   " if lay.get("trailing") else ""
-                self.out.append("%s%s%s%s%s%s" % (ind, k, eq, pad, v if isinstance(v, str) else fnum(v, lay), trail))
+                txt = v if isinstance(v, str) else fnum(v, lay)
+                # number formats: an explicit plus sign, an exponent, no leading digit
+                if not isinstance(v, str) and lay.get("numforms") and self.rng.random() < 0.4:
+                    fv = float(v)
+                    form = self.rng.randrange(3)
+                    if form == 0 and fv > 0:
+                        txt = "+" + txt.strip()
+                    elif form == 1 and fv != 0:
+                        txt = ("%e" % fv)
+                    elif form == 2 and 0 < abs(fv) < 1 and float(("%r" % fv)) == fv:
+                        txt = ("%r" % fv).replace("0.", ".", 1)
+                self.out.append("%s%s%s%s%s%s" % (ind, k, eq, pad, txt, trail))
         self.out.append("%s.." % ind)
 
     def text(self):
